@@ -10,7 +10,9 @@
    step succeeded (cf_erase_late, extracted by T1; without it: C20_early_erase_refuted). *)
 From Coq Require Import List ZArith NArith Bool Lia.
 From Gluon Require Import Gen.FactsLimits Model.UidValidityGen Model.MailStore Proofs.MailStoreBase Proofs.MailStoreWf
-  Proofs.MailStoreC04 Proofs.MailStoreC17 Proofs.MailStoreC20 Model.MailStoreDedup Proofs.MailStoreDedup.
+  Proofs.MailStoreC04 Proofs.MailStoreC17 Proofs.MailStoreC20 Model.MailStoreDedup Proofs.MailStoreDedup
+  Model.ContentHash Proofs.ContentHash.
+From Coq Require Import Permutation.
 Import ListNotations.
 Open Scope Z_scope.
 
@@ -189,6 +191,42 @@ Proof.
   vm_compute. reflexivity.
 Qed.
 Print Assumptions C20_early_erase_refuted.
+
+(* ---- the content hash is a function of the bytes, and the body of a text part always reaches it ----
+   (Model/ContentHash.v: what `hash` above abstracts from rfc822.GetMessageHash depends on two places of rfc822/hash.go;
+   T1 extracts both: the parameter names are sorted before the loop, hashBody has a default arm taking the raw body) *)
+Theorem C20_content_hash_facts : hf_sorted hashfacts_now = true /\ hf_default_raw hashfacts_now = true.
+Proof. split; reflexivity. Qed.
+Print Assumptions C20_content_hash_facts.
+
+(* whatever order two calls get the Content-Type parameters of a part out of the map in, they write the same bytes into
+   the hash - so a retry of the same rejected literal finds its hash in the map *)
+Theorem C20_content_hash_does_not_depend_on_map_order : forall f p1 p2, hf_sorted f = true ->
+  Permutation p1 p2 -> NoDup (map fst p1) -> param_input f p1 = param_input f p2.
+Proof. exact params_order_independent. Qed.
+Print Assumptions C20_content_hash_does_not_depend_on_map_order.
+
+Theorem C20_content_hash_map_order_refuted : exists p1 p2, Permutation p1 p2 /\ NoDup (map fst p1) /\
+  param_input (mkHashFacts false true) p1 <> param_input (mkHashFacts false true) p2.
+Proof. exact params_unsorted_order_dependent. Qed.
+Print Assumptions C20_content_hash_map_order_refuted.
+
+(* under every identity transfer encoding (7bit, 8bit, binary, any other token, none) the body bytes reach the hash: two
+   messages differing only there have different hash input; and which identity encoding is declared makes no difference *)
+Theorem C20_content_hash_covers_body_under_every_identity_encoding : forall b64 qp f e b1 b2, hf_default_raw f = true ->
+  identity_encoding e = true -> body_input b64 qp f e b1 = body_input b64 qp f e b2 -> b1 = b2.
+Proof. exact body_identity_injective. Qed.
+Print Assumptions C20_content_hash_covers_body_under_every_identity_encoding.
+
+Theorem C20_content_hash_ignores_which_identity_encoding : forall b64 qp f e1 e2 b, hf_default_raw f = true ->
+  identity_encoding e1 = true -> identity_encoding e2 = true -> body_input b64 qp f e1 b = body_input b64 qp f e2 b.
+Proof. exact body_identity_same. Qed.
+Print Assumptions C20_content_hash_ignores_which_identity_encoding.
+
+Theorem C20_content_hash_without_default_arm_refuted : forall b64 qp, exists b1 b2, b1 <> b2 /\
+  body_input b64 qp (mkHashFacts true false) EncBinary b1 = body_input b64 qp (mkHashFacts true false) EncBinary b2.
+Proof. exact body_without_default_collides. Qed.
+Print Assumptions C20_content_hash_without_default_arm_refuted.
 
 (* non-vacuity: the start state satisfies wf and wfC; a history with rejection, duplicate, move out, restart *)
 Example C20_start_ok : wf (init_store 100) /\ wfC (fun l => Some l) facts_fixed (init_store 100).
